@@ -25,6 +25,7 @@ void h_cap(void) { hs_sess_cap *it; hs_str *d; bool *f; hid_cap(it, d, f); IORA_
 void hid_cl_value_contract(HttpServer *self, SessionId sid, hs_val value, size_t *contentLength)
 __CPROVER_requires(IORA_TRUE && iora_exc == EXC_NONE && G.closed == 0 && G.cl_fell == 0)
 __CPROVER_requires(__CPROVER_is_fresh(contentLength, sizeof(*contentLength)))
+__CPROVER_requires(HS_VAL_WF(value))
 __CPROVER_assigns(*contentLength, iora_exc, iora_exc_caught, G.closed, G.cl_fell)
 /* V1 nothing is thrown out of the I/O thread (invalid / overflowing digits are caught) */
 __CPROVER_ensures(iora_exc == EXC_NONE)
@@ -33,6 +34,40 @@ __CPROVER_ensures((G.cl_fell != 0) == (G.closed == 0))
 __CPROVER_ensures(G.closed != 0 || *contentLength <= MAX_BODY_SIZE)
 ;
 void h_clv(void) { HttpServer *s; SessionId sid; hs_val v; size_t *cl; hid_cl_value(s, sid, v, cl); IORA_CANARY("h_clv: returns"); if (G.cl_fell) { IORA_CANARY("h_clv: accepted"); } else { IORA_CANARY("h_clv: closed"); } }
+
+/* ============ the whole Content-Length block of the header scan: `if (key == "content-length") { validation; duplicate test; try {...} catch (...) {...} }` ============ */
+#define OLD_CL __CPROVER_old(*contentLength)
+#define OLD_HAVE __CPROVER_old(*haveContentLength)
+#define ACCEPTED (G.cl_fell != 0 && key.is_cl)
+void hid_cl_block_contract(HttpServer *self, SessionId sid, hs_key key, hs_val value, size_t *contentLength, bool *haveContentLength)
+__CPROVER_requires(IORA_TRUE && iora_exc == EXC_NONE && G.closed == 0 && G.cl_fell == 0)
+__CPROVER_requires(__CPROVER_is_fresh(contentLength, sizeof(*contentLength)))
+__CPROVER_requires(__CPROVER_is_fresh(haveContentLength, sizeof(*haveContentLength)))
+__CPROVER_requires(HS_VAL_WF(value))
+__CPROVER_assigns(*contentLength, *haveContentLength, iora_exc, iora_exc_caught, G.closed, G.cl_fell)
+/* W1 NOTHING THROWN LEAVES THE BLOCK (the block runs on the server's only I/O thread: an escaping std::out_of_range / invalid_argument kills it) */
+__CPROVER_ensures(iora_exc == EXC_NONE)
+/* W2 the block is left by `return` exactly when the session was closed */
+__CPROVER_ensures((G.cl_fell != 0) == (G.closed == 0))
+/* W3 a value is accepted only if it is 1*DIGIT whose number fits 64 bits ... */
+__CPROVER_ensures(ACCEPTED ==> (value.n >= 1 && value.all_digits && value.fits64))
+/* W4 ... it becomes the request's length, within the body cap ... */
+__CPROVER_ensures(ACCEPTED ==> (*haveContentLength != 0 && *contentLength == value.num && *contentLength <= MAX_BODY_SIZE))
+/* W5 ... and, when a Content-Length was already seen in this header block, it is EQUAL to that one (conflicting duplicates are rejected) */
+__CPROVER_ensures((ACCEPTED && OLD_HAVE) ==> OLD_CL == value.num)
+/* W6 any other field leaves the framing state alone */
+__CPROVER_ensures(!key.is_cl ==> (G.cl_fell != 0 && *contentLength == OLD_CL && *haveContentLength == OLD_HAVE))
+/* W7 a rejected length closes the connection and is never framed: not all digits / empty / conflicting / above the cap => closed */
+__CPROVER_ensures((key.is_cl && (value.n == 0 || !value.all_digits || !value.fits64 || value.num > MAX_BODY_SIZE || (OLD_HAVE && OLD_CL != value.num))) ==> G.closed != 0)
+;
+void h_clb(void)
+{
+  HttpServer *s; SessionId sid; hs_key k; hs_val v; size_t *cl; bool *have;
+  hid_cl_block(s, sid, k, v, cl, have);
+  IORA_CANARY("h_clb: returns");
+  if (G.cl_fell && k.is_cl) { IORA_CANARY("h_clb: length accepted"); }
+  if (G.closed) { IORA_CANARY("h_clb: closed"); }
+}
 
 /* ============ (a)+(c) the pipelining loop skeleton ============ */
 void hid_pipeline_contract(HttpServer *self, SessionId sid, bool bufferLimitExceeded, iora_sv dataStr)
